@@ -46,12 +46,14 @@ impl Instance {
 
   #[inline]
   pub fn set_field(&mut self, name: LyStr, value: Value) -> bool {
+    // a field the class gained after this instance was created
+    // is undeclared for the instance
     match self.class().get_field_index(&name) {
-      Some(index) => {
+      Some(index) if (index as usize) < self.len() => {
         self[index as usize] = value;
         true
       },
-      None => false,
+      _ => false,
     }
   }
 
@@ -60,7 +62,7 @@ impl Instance {
     self
       .class()
       .get_field_index(&name)
-      .map(|index| &self[index as usize])
+      .and_then(|index| self.get(index as usize))
   }
 
   /// Construct a `Tuple` from `NonNull<u8>`
